@@ -4,7 +4,7 @@ two must return the same result and registers."""
 import vlib, suites
 from fhgen import *
 
-RULE = ("histories of 40-120 operations over 1-3 unwinders (clones included) sharing 1-2 caches: add/remove of modules "
+RULE = ("histories of 40-120 operations over 1-3 unwinders (clones and clone_from refreshes included) sharing 1-2 caches: add/remove of modules "
         "in between, addresses colliding modulo the cache size, cacheable rows, rows only the generic path can "
         "evaluate, readers with holes (state-dependent errors), every call twinned with a fresh-cache call; "
         "distinct = (arch, presentation, address kind, cacheable?, reader)")
@@ -64,6 +64,10 @@ def history(rng, arch, nops, name):
                 s.add("remove %s %s" % (u, hx(m["start"]))); unws[u].discard(mid)
         elif c < 4 and len(unws) < 3:
             v = "U%d" % len(unws); s.add("clone %s %s" % (u, v)); unws[v] = set(unws[u])
+        elif c < 4 and len(unws) >= 2:
+            # refresh an existing unwinder from another one (Clone::clone_from): its module set AND identity become the source's
+            v = rng.choice([w for w in sorted(unws) if w != u])
+            s.add("clonefrom %s %s" % (v, u)); unws[v] = set(unws[u])
         else:
             x = rng.choice(pool)
             if x not in kinds:
